@@ -15,7 +15,7 @@ package reversedns
 // One lookup (through the process-wide cache): an error comes with no names; a success returns names the resolver gave
 // for exactly this query text (now or when the entry was cached); a failure is not cached.
 //@ func GetReverseDns
-//@ safety C18
+//@ safety C18 C08
 //@ requires[pre.cache.inv]  forallstr(k, cached("reverse-dns-"+k) ==> cachedAs("reverse-dns-"+k, []string) && dnsAns(k, cachedval("reverse-dns-"+k, []string)))
 //@ ensures[C18.dns.atom]    ret1 != nil ==> ret0 == nil
 //@ ensures[C18.dns.exact]   ret1 == nil ==> dnsAns(ipAddr, ret0)
